@@ -222,7 +222,7 @@ class Recorder:
              "support": [bool(b) for b in o.get_support()],
              "sorted": [int(i) + 1 for i in o.get_support(indices=True)],
              "ordered": [int(i) + 1 for i in o.get_support(indices=True, ordered=True)],
-             "hasy": False, "ysel": [], "hastr": False, "tcols": []}
+             "hasy": False, "ysel": [], "hastr": False, "tcols": [], "views": True}
         if self.axis == 0 and y is not None and hasattr(o, "y_selected_"):
             yy = np.asarray(y, float).reshape(len(y), -1)
             p["hasy"] = True
